@@ -418,7 +418,7 @@ def run_check(prop, tier):
         # group: one replay file per violation kind (first few)
         has_input = any(v["kind"].startswith("oracle") or v["kind"] in ("model-vs-impl", "probe", "implementation-aborts") for v in real)
         # the violations that come with a concrete input are listed first, so that the replay files shown are the useful ones
-        real.sort(key=lambda v: 0 if (v["kind"].startswith("oracle") or v["kind"] in ("probe", "implementation-aborts") or (v["kind"] == "model-vs-impl" and v.get("impl_status") in ("panic", "abort", "timeout"))) else (1 if v["kind"] == "model-vs-impl" else 2))
+        real.sort(key=lambda v: 0 if (v["kind"].startswith("oracle") or v["kind"] in ("probe", "implementation-aborts") or (v["kind"] == "model-vs-impl" and (v.get("impl_status") in ("panic", "abort", "timeout") or (cfg.get("verdict_is_spec") and v.get("impl_status") != v.get("model_status"))))) else (1 if v["kind"] == "model-vs-impl" else 2))
         shown = 0
         for v in real:
             if shown >= 5:
@@ -433,6 +433,9 @@ def run_check(prop, tier):
                 suffix = " no-failing-input-found"
             elif v["kind"] == "model-vs-impl" and v.get("impl_status") in ("panic", "abort", "timeout") and v.get("model_status") not in ("panic", "abort", "timeout"):
                 # the implementation crashes on this input where the proved-total model returns a result: a concrete failing input
+                suffix = ""
+            elif v["kind"] == "model-vs-impl" and cfg.get("verdict_is_spec") and v.get("impl_status") != v.get("model_status") and {v.get("impl_status"), v.get("model_status")} <= {"ok", "err", "some", "none"}:
+                # the implementation accepts what the model rejects, or rejects what it accepts: a concrete failing input
                 suffix = ""
             elif v["kind"] == "model-vs-impl" and not cfg.get("model_is_spec") and not any(x["kind"].startswith("oracle") or x["kind"] == "probe" for x in real):
                 # correspondence broke, the direct oracle saw no property failure on the explored inputs
